@@ -536,6 +536,27 @@ class SArr(numpy.ndarray):
             return arr.view(SArr)
         return numpy.asarray(arr)
 
+    @staticmethod
+    def _index_key(key):
+        """an index array that holds (symbolic) integers as objects -- e.g. a row of an argsort kept symbolic --
+        becomes the integer array NumPy wants: each symbolic entry is realised (the path forks over its values)"""
+
+        def conv(k):
+            if isinstance(k, numpy.ndarray) and k.dtype == object and k.size and all(isinstance(v, (int, numpy.integer, SymInt)) and not isinstance(v, bool) for v in numpy.ndarray.ravel(k)):
+                flat = [(_CUR.realize(v) if isinstance(v, SymInt) else int(v)) for v in numpy.ndarray.ravel(k)]
+                return numpy.array(flat, dtype=numpy.int64).reshape(k.shape)
+            return k
+
+        if isinstance(key, tuple):
+            return tuple(conv(k) for k in key)
+        return conv(key)
+
+    def __getitem__(self, key):
+        return numpy.ndarray.__getitem__(self, SArr._index_key(key))
+
+    def __setitem__(self, key, value):
+        numpy.ndarray.__setitem__(self, SArr._index_key(key), value)
+
     def astype(self, dtype, *a, **k):
         dt = numpy.dtype(dtype) if dtype is not None else None
         if dt is not None and dt.kind in "fO":
